@@ -25,7 +25,7 @@ def expected_range(dims, rng):
     return ["ok", names]
 
 
-def tree_levels(tree):
+def tree_levels(tree, name="T"):
     out = {}
 
     def rec(parent, lvl):
@@ -35,7 +35,7 @@ def tree_levels(tree):
             n = f"{parent}_{i}"
             out.setdefault(lvl, []).append(n)
             rec(n, lvl + 1)
-    rec("T", 0)
+    rec(name, 0)
     return out
 
 
@@ -67,6 +67,8 @@ def gen_cases(tier, seed):
             for lvl in range(-1, depth + 1):
                 for pre in ("T", "T_0", "T_1", "X"):
                     cases.append({"kind": "lvl", "tree": list(tree), "lvl": lvl, "pre": pre})
+                # a tree whose name contains underscores and digits (compared with the specification only)
+                cases.append({"kind": "lvl", "tree": list(tree), "lvl": lvl, "pre": "l2_rt_1", "name": "l2_rt_1"})
     return cases
 
 
@@ -115,12 +117,14 @@ def evaluate(cases, rep):
                 rep.corr_broken(f"model differs from specification on {c}", c, model=mo, impl=im)
         else:
             stats["lvl"] += 1
-            lv = tree_levels(c["tree"])
+            lv = tree_levels(c["tree"], c.get("name", "T"))
             exp = ["ok", [n for n in lv.get(c["lvl"], []) if n.startswith(c["pre"])]]
             sel = im[0] if im[0][0] == "ok" else ["err"]
-            if c["pre"] == "T" and sel != exp:
-                rep.fail("C18:lvl:wrong-set", f"get_nodes_from_lvl(T, {c['lvl']}) on tree {c['tree']}: implementation "
+            if c["pre"] == c.get("name", "T") and sel != exp:
+                rep.fail("C18:lvl:wrong-set", f"get_nodes_from_lvl({c['pre']}, {c['lvl']}) on tree {c['tree']}: implementation "
                          f"{sel}, specification {exp}", c, observed=sel, expected=exp)
+            elif "name" in c:
+                pass        # the model request builds the tree under the name T only
             elif [sel, im[1], im[2]] != [mo[0], mo[1], mo[2]]:
                 rep.corr_broken(f"tree construction / level selection: model and implementation differ on {c}",
                                 c, model=mo, impl=im)
